@@ -58,7 +58,9 @@ Emit == OnTree(PrintT(<<"CASE", ToJson([min |-> Min(t), full |-> Full(t), at |->
 
 \* operand pools
 OpsSmall == {<<"a">>, <<"b">>, <<"a","*">>, <<"?","b">>, <<"*">>}
-OpsMid   == {<<"a">>, <<"b">>, <<"c",".","d">>, <<"a","*">>, <<"?","b">>, <<"x","-","y","=","1">>, <<"*">>}
+\* (tag names that BEGIN with the letters of a keyword followed by punctuation are plain operands: "not-r", "or.x")
+OpsMid   == {<<"a">>, <<"b">>, <<"c",".","d">>, <<"a","*">>, <<"?","b">>, <<"x","-","y","=","1">>, <<"*">>,
+             <<"n","o","t","-","r">>, <<"o","r",".","x">>}
 OpsFull  == OpsMid \cup {<<"[","a","z","]","b">>, <<"[","!","a","]","b">>}
-Univ     == << <<"a">>, <<"b">>, <<"a","b">>, <<"z","b">>, <<"c",".","d">>, <<"x","-","y","=","1">> >>
+Univ     == << <<"a">>, <<"b">>, <<"a","b">>, <<"z","b">>, <<"c",".","d">>, <<"x","-","y","=","1">>, <<"n","o","t","-","r">> >>
 =============================================================================
